@@ -869,7 +869,8 @@ def challengeTypes (t : IdType) (wildcard : Bool) : List ChType :=
 /-- `newAuthorization`: stored identifier value, wildcard flag and the challenge types created
     (before the provisioner's `IsChallengeEnabled` filter, which only removes entries) -/
 def newAuthorization (t : IdType) (raw : Str) : Str × Bool × List ChType :=
-  let (v, w) := trimIfWildcard raw
+  -- since fix 77ebdfa only DNS identifiers have a wildcard form; every other type keeps its value as given
+  let (v, w) := if t = .dns then trimIfWildcard raw else (raw, false)
   (v, w, challengeTypes t w)
 
 /-! ### facts about the source text, re-derived with go/ast on every run (stage `src`)
